@@ -260,7 +260,17 @@ def r1_guard_on_every_cycle(ctx):
                         for c in g.calls():
                             if c.callee == a and c.args:
                                 t = sh(ne(g.deep(c.args[0], 12)))
-                                if not re.search(r"next\(|index\(|\[", t):
+                                # inside a closure, the closure's own parameter is what the iterator adaptor hands it: an item
+                                pl0 = (c.args[0].get("move") or c.args[0].get("copy")) if isinstance(c.args[0], dict) else None
+                                item_param = g is not pf and pl0 is not None and not pl0["p"] and 1 < pl0["l"] <= g.argc
+                                if g is not pf and not item_param and pl0 is not None:
+                                    # ... or a plain copy / reborrow of it
+                                    ds = g.whole_defs(pl0["l"])
+                                    if len(ds) == 1 and ds[0][1] != "t" and ds[0][2]["rv"]["k"] in ("use", "ref"):
+                                        src = ds[0][2]["rv"].get("a") or {"copy": ds[0][2]["rv"].get("of")}
+                                        p1 = (src.get("move") or src.get("copy")) if isinstance(src, dict) else None
+                                        item_param = p1 is not None and 1 < p1["l"] <= g.argc
+                                if not re.search(r"next\(|index\(|\[", t) and not item_param:
                                     flat.append((g, c, t))
                     if flat:
                         g, c, t = flat[0]
